@@ -11,7 +11,7 @@ CHECKS = {
 CHECKS.update({
     "C11": dict(
         text="Lean 4 theorems: for every recipe state, regex semantics (re.search is a parameter) and query, the nested loops of get_quantization_configs equal 'the last applicable rule in scope/insertion order wins, default no-quantize' (resolve_eq_spec); whatever is resolved passes the support check (resolve_sound); a failed add is a ValueError and leaves the state unchanged; '*' resets a scope. The state reached by a history is tied to the code by step-by-step correspondence over all histories of length <= 2 (reduced alphabet) and sampled longer ones, plus an independent declarative oracle.",
-        note="history theorems (QProps/C11b): the state after ANY history of add calls is characterised declaratively (history_rules, history_scope_order, history_invariant) and resolution after a history equals the spec (history_resolve); re.search is a parameter of the model (assumed to be a function of pattern and string)",
+        note="history theorems (QProps/C11b): the state after ANY history of add calls is characterised declaratively (history_rules, history_scope_order, history_invariant) and resolution after a history equals the spec (history_resolve); re.search is a parameter of the model (assumed to be a function of pattern and string); histories are also exported and LOADED into a second object, which must export and resolve alike (the load path rebuilds every config from its dictionary)",
         design="§6 C11",
     ),
     "C12": dict(
@@ -21,14 +21,14 @@ CHECKS.update({
     ),
     "C13": dict(
         text="Lean 4 theorems over tables regenerated from the live registries/policy: the unrolling code is verified by kernel evaluation (unroll_matches); accepted without skip_checks => a legal runtime mode for that operator, for every config (accepted_minmax_legal, accepted_float_casting); unsupported => ValueError at update time, accepted => never refused; '*' rules that fail the check are never resolved (C11.resolve_sound). The model's acceptance function is compared with the code on the full 24-op x 960-config x 2-algorithm lattice exhaustively.",
-        note="'the interpreter prepares every accepted pair and tracks the float model' is runtime behaviour: not proved; executed for every accepted (algorithm, operator, config) point on a generated model built around that operator (C06/C07 oracles); findings D23-D25 recorded",
+        note="'the interpreter prepares every accepted pair and tracks the float model' is runtime behaviour: not proved; executed for every accepted (algorithm, operator, config) point on a generated model built around that operator (C06/C07 oracles); both orientations (adj_y) of a constant BATCH_MATMUL operand and configs spelt with strings (as recipe files deliver them) are built; findings D23-D27, D33 recorded",
         design="§6 C13",
     ),
 })
 CHECKS.update({
     "C01": dict(
         text="Lean 4 theorems: every single graph transformation (insert QUANTIZE / insert DEQUANTIZE / quantize tensor) preserves the decidable well-formedness predicate WF.modelOK (indices in range, unique names, single producer, valid execution order, valid graph/signature I/O); the whole transformation performer with its op-id maps preserves it for consistent chain-free instruction lists (performer_wf); instruction generation + performer preserve it for every request set of the closed shape the registered algorithms produce (modify_wf); inserted names are fresh, opcode indices valid. The interpreter clause is executed in a sandboxed child on every generated case.",
-        note="end-to-end theorem C01.quantize_wf: for every model/recipe state in the converter normal form NF (QProofs/PipelineWF.NF: well-formed tagged input, no blockwise weights, graph inputs not constants, slot-role/mandatory-operand conditions), every regex semantics and statistics, quantize() raises or returns a WF.modelOK graph; the pipeline correspondence additionally evaluates WF.modelOK on the model's own output for every generated case (also outside NF); interpreter allocate/invoke is runtime behaviour (executed, not proved)",
+        note="end-to-end theorem C01.quantize_wf: for every model/recipe state in the converter normal form NF (QProofs/PipelineWF.NF: well-formed tagged input, no blockwise weights, graph inputs not constants, slot-role/mandatory-operand conditions), every regex semantics and statistics, quantize() raises or returns a WF.modelOK graph; the pipeline correspondence additionally evaluates WF.modelOK on the model's own output for every generated case (also outside NF); C01b (runtime clause at the level of operand TYPES): every operator of the output has a signature of the explicit, ASSUMED kernel table KernelSig.accepts (kernel_signatures_ok; hypotheses NF, no skip_checks, float input, runtime data operands, constant 16-bit convolution weights -- the last two necessary: closed witnesses replayed as runtime failures, finding D39); the table is a definition validated by execution (the driver evaluates it on every output, the same bytes are allocated and invoked in the interpreter), never proved; parameter-level kernel constraints (findings D26, D29, D33) and the operator-replacing BLOCKWISE transformation (probe only; findings D37, fixed D38/D40) are outside the theorem; interpreter allocate/invoke is runtime behaviour (executed, not proved)",
         design="§6 C01",
     ),
     "C02": dict(
@@ -86,12 +86,12 @@ CHECKS.update({
 CHECKS.update({
     "C06": dict(
         text="PARTIAL proof. Proved in Lean 4: weight-only / float16 / dynamic-range modes request only DEQUANTIZE-on-constant or in-place constant quantization (C03.xfs_wo, xfs_drq), the rewritten graph keeps the exact operator skeleton of the input (C02.quantize_skeleton), and every stored constant dequantizes to within half a step (+ float32 slack) of the original (C17.dq_q_rounded). The pipeline model is compared bit-exactly with the code on every case. The statement's observable (interpreter(quantized) = interpreter(reference built from the INPUT model + independently decoded constants)) is executed on every generated (model, recipe, input): float32-rounding tolerance for weight-only/float16, generous bound for dynamic range, with localisation of the first operator that is off.",
-        note="LiteRT kernels (incl. hybrid kernels' dynamic 8-bit activation quantization) are outside the model: output equality is exploration-level evidence; two recorded findings D23 (C06) are call-site keyed",
+        note="LiteRT kernels (incl. hybrid kernels' dynamic 8-bit activation quantization) are outside the model: output equality is exploration-level evidence; C06b: the analytic error bound of the SPECIFIED hybrid (dynamic-range) kernel is proved and shown attained (per-row input quantization to 8 bits, exact integer accumulation, rescaling); two recorded findings D23, D27 are call-site keyed",
         design="§6 C06",
     ),
     "C07": dict(
         text="PARTIAL proof. Proved in Lean 4: what the quantizer contributes to the integer numerics — scale positive/finite, zero point in range, value round-trip within half a step under IEEE rounding (C17.*), bias scale = input scale x weight scale with zero point 0 (C04.bias_params), per-operand transformations of static-range ops (C03.xfs_srq). Pipeline compared bit-exactly with the code. The statement's observable (dequantized interpreter outputs near the float outputs on the calibration input; never constant/non-finite when the float output is not) is executed on generated models of depth 1-4 for every static config family with a deliberately generous bound and localisation of the first operator that is off.",
-        note="LiteRT fixed-point kernels are outside the model: closeness is exploration-level evidence; recorded findings D24, D25 are call-site keyed",
+        note="LiteRT fixed-point kernels are outside the model: closeness is exploration-level evidence; C07b: for ONE operator under the integer kernel of the TFLite quantization spec over exact rationals the dequantized result is within sy/2 + sum(|x_i| sw/2 + |w_i| sx/2 + sx sw/4) + sx sw/2 of the float result inside the output range and the nearest bound outside (fc_row_error, _sat), with the fixed fractions per width (0.59 % a8w8, 7.4 % a8w4, 0.40 % a16w8, 7.1 % a16w4) and the not-constant clause; the executed bound additionally accounts for the 512-cell tables of the 16-bit GELU/TANH/LOGISTIC kernels; recorded findings D24, D25, D33, D39 are call-site keyed",
         design="§6 C07",
     ),
     "C16": dict(
